@@ -349,7 +349,9 @@ def run_apply(ch):
             fails.append(('debug_info_sec.size/name', (PAYLOAD + shift, '.debug_info'), g))
         # asking the same file object again - with the same flag, and with the other flag in between - gives the same bytes (relocations are applied to a
         # fresh copy of the section each time: REL addends live in the section bytes, so a second application on the same buffer doubles them)
-        for label, flags in (('second get_dwarf_info()', [relocate]), ('get_dwarf_info() after one with the other flag', [not relocate, relocate])):
+        # (applying S+A / S+A-P RELA relocations a second time to the same buffer changes nothing, so the plain repetition is only run where it could be observed)
+        observable = (not rela) or any(table.get(r_[2], (0, ''))[1].startswith('V') for r_ in relocs)
+        for label, flags in ((('second get_dwarf_info()', [relocate]),) if observable else ()) + (('get_dwarf_info() after one with the other flag', [not relocate, relocate]),):
             for fl in flags:
                 dw2 = guarded(lambda: elf.get_dwarf_info(relocate_dwarf_sections=fl))
             g = guarded(lambda: dw2.debug_info_sec.stream.getvalue())
